@@ -152,6 +152,14 @@ def advance_claims(s, I):
         return out
     plen = z3.ZeroExt(48, le16(D, c0 + U64(2))) + U64(1)
     queues = [x.items for x in qr_field(I, q, "queues").items]
+    if all(width_of(d) == 0 for _, d in s.proto):
+        # an all-constant prototype stores no bits: which bytes (if any) the reader consumes is not part of any property.
+        # What C09 needs is that one call produces a bounded number of values, all equal to the declared minima.
+        for i in range(n):
+            out.append(("all-constant prototype: queue %d grows by at most 8 values per call" % i, z3.BoolVal(len(queues[i]) <= 8)))
+            for it in queues[i]:
+                out.append(("zero-width stream %d: synthesised value = declared minimum" % i, it.fields[0] == I64(s.proto[i][1][1])))
+        return out
     is_data = kind == z3.BitVecVal(1, 8)
     if all(len(x) == 0 for x in queues) or True:
         # non-data packets: the reader must land exactly behind the packet (its length field counts the whole packet)
